@@ -17,7 +17,7 @@ def triple_record(av, bv, cv, x, dts):
     ra, rb, rc, rax, rbx = ranks(av, bv, cv, sorted(av + [x]), sorted(bv + [x]))
     z = f32_fields(0.0)
     r = dict(a=ra, b=rb, c=rc, ax=rax, bx=rbx, dts=list(dts), ok=False, err='',
-             d={n: z for n in ('ab', 'ba', 'ac', 'ca', 'bc', 'cb', 'wab', 'wba', 'aug', 'pab', 'pac', 'mab', 'mac', 'maa', 'mbc')})
+             d={n: z for n in ('ab', 'ba', 'ac', 'ca', 'bc', 'cb', 'wab', 'wba', 'aug', 'pab', 'pac', 'mab', 'mac', 'maa', 'mbc', 'qab', 'qac')})
     try:
         A = np.array(av, dtype=dts[0]); B = np.array(bv, dtype=dts[1]); C = np.array(cv, dtype=dts[2])
         Aw = A.astype(WIDER[dts[0]]); Bw = B.astype(WIDER[dts[1]])
@@ -36,8 +36,14 @@ def triple_record(av, bv, cv, x, dts):
             omp_set_num_threads(1)
             row = jaccarddist_array(A, refs)
             d['pab'] = f32_fields(row[0]); d['pac'] = f32_fields(row[1])
+            # the same collection re-stored in a wider integer type (copy constructor with dtype)
+            wider = SignatureArray(refs, dtype=np.dtype(WIDER[dts[1]]))
+            row = jaccarddist_array(A, wider)
+            d['qab'] = f32_fields(row[0]); d['qac'] = f32_fields(row[1])
+            if wider.kmerspec != refs.kmerspec or wider.values.dtype != np.dtype(WIDER[dts[1]]) or len(wider) != 2:
+                d['qab'] = dict(d['qab'], bad='widened collection lost its parameters / type')
         else:
-            d['pab'] = d['ab']; d['pac'] = d['ac']
+            d['pab'] = d['ab']; d['pac'] = d['ac']; d['qab'] = d['ab']; d['qac'] = d['ac']
         # the same distances once more through reference collections addressed by a permuted index list (matrix and all-pairs forms)
         from gambit.metric import jaccarddist_matrix, jaccarddist_pairwise
         wide = np.dtype(max((np.dtype(x) for x in dts), key=lambda t: (t.itemsize, t.kind == 'u')))
